@@ -245,7 +245,13 @@ def implementation_crash(prop, workdir):
     stack = g.group(1)
     frames = [l for l in stack.splitlines() if l and not l.startswith("\t")]
     if any(f.startswith("main.") for f in frames):
-        return None
+        # the harness called into the library on this goroutine.  A panic there may be the harness's
+        # own doing (it is recovered and judged by the monitors instead); an unsynchronised map
+        # access detected by the runtime is not: the faulting access is the top frame, and when that
+        # frame is the library's, the library touched one of its maps without its lock.
+        top = next((f for f in frames if not f.startswith("runtime.") and not f.startswith("internal/")), "")
+        if not (m.group(1).startswith("fatal error: concurrent map") and top.startswith("berty.tech/go-ipfs-log")):
+            return None
     if "berty.tech/go-ipfs-log" not in stack:
         return None
     case = None
